@@ -137,6 +137,76 @@ def run_units(task):
         a = rnd.randint(0 if names[hidx] == "min_cost" else -40, 40)
         one(hidx, a, a + rnd.randint(1, 30), "random")
         res["evals"] += 1
+    # random histories of pushes and pops within the stack height (a shadow stack of saved alternatives is the model)
+    for hrun in range(task.get("histories", 60)):
+        ndoms, height, nprops = 3, 14, 3
+        stack = np.full((height, ndoms, 2), -777, dtype=np.int32)
+        flags = np.zeros((height, nprops), dtype=bool)
+        upd = np.full((height, 2), 999, dtype=np.uint16)
+        top = np.zeros(1, dtype=np.uint8)
+        for k in range(ndoms):
+            lo = rnd.randint(0, 3)
+            stack[0, k] = (lo, lo + rnd.randint(2, 9))
+        flags[0] = True
+        triggers = np.array([[rnd.randint(0, 7) for _ in range(nprops)] for _ in range(ndoms)], dtype=np.uint8)
+        stats = np.zeros(13, dtype=np.int64)
+        shadow = {}
+        cols = int(stack[0, :, MAX].max()) + 1
+        costs = np.array([[rnd.randint(1, 5) for _ in range(cols)] for _ in range(ndoms)], dtype=np.int64)
+        ops = []
+        for step in range(task.get("history_steps", 50)):
+            t = int(top[0])
+            open_ = [k for k in range(ndoms) if stack[t, k, MIN] < stack[t, k, MAX]]
+            push = open_ and t + 2 < height and (t == 0 or rnd.random() < 0.6)
+            case = {"history": hrun, "step": step, "ops": ops[-12:]}
+            if push:
+                d = rnd.choice(open_)
+                hidx = rnd.choice(sorted(names))
+                pre_d, pre_f = stack[t].copy(), flags[t].copy()
+                below = stack[:t].copy()
+                # an entailment-like event between decisions: a flag cleared at the current level only
+                if rnd.random() < 0.3:
+                    flags[t, rnd.randrange(nprops)] = False
+                    pre_f = flags[t].copy()
+                params = costs if names[hidx] == "min_cost" else np.zeros((1, 0), dtype=np.int64)
+                ev = int(H.DOM_HEURISTIC_FCTS[hidx](params, stack, flags, upd, top, d))
+                t1 = int(top[0])
+                res["calls"] += 1
+                ops.append("push:%s:d%d:%d->%d" % (names[hidx], d, t, t1))
+                fl, alts, need = branchcheck.check_decision(pre_d, pre_f, t, stack, flags, upd, t1, d, ev)
+                for kind, detail in fl:
+                    fail("history_" + kind, "%s (history %d step %d)" % (detail, hrun, step), case)
+                if not np.array_equal(stack[:t], below):
+                    fail("history_level_below_modified", "a decision at level %d changed a lower level" % t, case)
+                shadow.update(alts)
+                if fl:
+                    break
+            else:
+                queue = np.zeros(nprops, dtype=bool)
+                ok = bool(backtrack(stats, flags, upd, top, queue, triggers))
+                res["backtracks"] += 1
+                ops.append("pop:%d->%d" % (t, int(top[0])))
+                if t == 0:
+                    if ok:
+                        fail("history_backtrack_succeeded_at_level_0", "", case)
+                    break
+                if not ok or int(top[0]) != t - 1:
+                    fail("history_backtrack_wrong_pop", "top %d -> %d ok=%s" % (t, int(top[0]), ok), case)
+                    break
+                sd, sf, (dd, nd) = shadow.pop(t - 1)
+                if not np.array_equal(stack[t - 1], sd) or not np.array_equal(flags[t - 1], sf):
+                    fail("history_restored_state_differs_from_saved_alternative",
+                         "level %d after %r: %r / flags %r, saved %r / %r" % (
+                             t - 1, ops[-6:], stack[t - 1].tolist(), flags[t - 1].tolist(), sd.tolist(), sf.tolist()),
+                         case)
+                    break
+                msg = branchcheck.check_queue(queue, flags[t - 1], triggers, dd, nd)
+                if msg:
+                    fail("history_watcher_not_queued_after_backtrack", msg, case)
+        res["evals"] += 1
+        res["hashes"].append(hash(("history", task["seed"], hrun)))
+        res["nontrivial"].append(hash(("history", task["seed"], hrun)))
+        res["per_heuristic"]["histories"] = res["per_heuristic"].get("histories", 0) + 1
     # backtrack at level 0 fails and changes nothing
     flags = np.ones((4, 2), dtype=bool)
     upd = np.zeros((4, 2), dtype=np.uint16)
